@@ -338,6 +338,7 @@ def run(rec, shard, nshards, t):
             rec.sample({'expr': e, 'txn': jtxn(txs[0])})
     # reference-table spot checks quoted in `tally reference`
     if shard == 0:
+        exact_aggregates(rec, ep)
         doc = [('split("-", 0)', {'description': 'ACH-OUT-123'}, 'ACH'), ('substring(0, 4)', {'description': 'AMZN*MARKET'}, 'AMZN'),
                ('trim()', {'description': '  AMAZON  '}, 'AMAZON'), ('extract("REF:(\\\\d+)")', {'description': 'REF:12345'}, '12345'),
                ('regex_replace(field.description, "^APLPAY\\\\s+", "")', {'description': 'APLPAY STARBUCKS'}, 'STARBUCKS'),
@@ -355,9 +356,44 @@ def run(rec, shard, nshards, t):
                               {'kind': 'eval', 'expr': e, 'txn': jtxn(txn), 'vars': {}, 'rows': {}})
 
 
+EXACT_ROWS = {'cents': [{'amt': 0.1}, {'amt': 0.2}, {'amt': 0.3}], 'dimes': [{'amt': 0.1} for _ in range(10)],
+              'mix': [{'amt': 19.99}, {'amt': 5.01}, {'amt': 0.10}, {'amt': 0.20}], 'big': [{'amt': 1e16}, {'amt': 1.0}, {'amt': -1e16}],
+              'ints': [{'amt': 3}, {'amt': 4}], 'one': [{'amt': 0.1}], 'none': []}
+
+
+def exact_aggregates(rec, ep):
+    """sum/min/max/len over supplemental rows give EXACTLY what the same Python construct gives (bit for bit: the documented idiom is
+    `sum(r.amount for r in orders) == txn.amount`, and this interpreter's sum() is the one the user reads about)."""
+    txn = {'description': 'x', 'amount': 0.6, 'field': None, 'source': 's'}
+    for name, rows in EXACT_ROWS.items():
+        vals = [r['amt'] for r in rows]
+        for tmpl, py in (('sum(r.amt for r in %s)', lambda v: sum(v)), ('sum([r.amt for r in %s])', lambda v: sum(v)),
+                         ('sum([r.amt for r in %s], 0.5)', lambda v: sum(v, 0.5)), ('sum(r.amt * 2 for r in %s)', lambda v: sum(x * 2 for x in v)),
+                         ('max(0, sum(r.amt for r in %s))', lambda v: max(0, sum(v))), ('sum(r.amt for r in %s if r.amt > 0.15)', lambda v: sum(x for x in v if x > 0.15))):
+            e = tmpl % name
+            want = py(vals)
+            rec.count('exact_aggregate_checks')
+            try:
+                got = ep.evaluate_transaction(e, dict(txn), {}, {k: [dict(r) for r in v] for k, v in EXACT_ROWS.items()})
+            except Exception as ex:
+                rec.violation('exact-aggregate:raises', f'{e}: {type(ex).__name__}: {ex}', {'kind': 'exact'})
+                continue
+            if repr(got) != repr(want) and not (got == want and type(got) is type(want)):
+                rec.violation('exact-aggregate:differs-from-python', f'{e} over {vals}: tally {got!r}, Python {want!r}', {'kind': 'exact'})
+        # the documented matching idiom
+        want = (sum(vals) == 0.6)
+        got = ep.evaluate_transaction('sum(r.amt for r in %s) == amount' % name, dict(txn), {}, {k: [dict(r) for r in v] for k, v in EXACT_ROWS.items()})
+        rec.count('exact_aggregate_checks')
+        if bool(got) != want:
+            rec.violation('exact-aggregate:differs-from-python', f'sum(r.amt for r in {name}) == amount (0.6): tally {got!r}, Python {want!r}', {'kind': 'exact'})
+
+
 def replay(rec, case):
     core.import_tally()
     from tally import expr_parser as ep
+    if case['kind'] == 'exact':
+        exact_aggregates(rec, ep)
+        return
     txn = untxn(case['txn'])
     if case['kind'] == 'law':
         law(rec, ep, case['name'], case['e1'], case['e2'], txn, case['vars'], case['rows'], case.get('as_bool', False))
